@@ -754,6 +754,13 @@ Theorem c13_listing_walks_computed :
   /\ walks_ok (map (fun x : bool * bool * lwalk => let '(eg, fg, w) := x in (eg, fg, mkWalk EAll (lw_dir w) true)) walks_pinned) = false.
 Proof. exact walks_computed. Qed.
 
+(** extract_all: for a description accepted as the full walk, exactly one file per entry of the default walk, named by the entry's listed
+    name (the translated _join_file_parts table) and holding what read() — run from the read table — returns. *)
+Theorem c13_extract_all_writes_every_file : forall (jt : list jrow) (rt : list rrow) (st : vstate) w,
+  walk_ok false false w = true -> forall t, NoDup (map fst t) ->
+  extract_files w (join_k jt) (read_info_t rt st) t = map (fun e => (join_k jt (fst e), read_info_t rt st (snd e))) (flat_tree t).
+Proof. exact (fun jt rt st w => extract_all_writes_every_file w (join_k jt) (read_info_t rt st)). Qed.
+
 (** ---- round 5: the additions to the whole property as one statement (SM/VpkProperty.v) ---- *)
 
 (** [c13_hyps_r5] = the hypotheses of [c13_property] and three more generated objects: the rejection table of FileInfo.write and the
